@@ -720,10 +720,10 @@ package ring
 //@   ensures val(p3) == old(val(p3)) - old(val(p1)) * old(val(p2)) && mexp(p3) == old(mexp(p3)) && dom(p3) == 1
 
 //@ afunc Ring.Add
-//@   trusted
-//@   requires ((isntt(p1) && isntt(p2)) || (iscoef(p1) && iscoef(p2))) && mexp(p1) == mexp(p2)
+//@   trusted ring-element view; an operand that is the zero element of no particular domain (a freshly allocated polynomial) has no Montgomery form of its own: the result takes the other operand's
+//@   requires (((isntt(p1) && isntt(p2)) || (iscoef(p1) && iscoef(p2))) && mexp(p1) == mexp(p2)) || (val(p1) == 0 && dom(p1) == 2) || (val(p2) == 0 && dom(p2) == 2)
 //@   assigns p3
-//@   ensures val(p3) == old(val(p1)) + old(val(p2)) && mexp(p3) == old(mexp(p1)) && dom(p3) == ite(old(dom(p1)) == 2, old(dom(p2)), old(dom(p1)))
+//@   ensures val(p3) == old(val(p1)) + old(val(p2)) && mexp(p3) == ite(old(val(p1)) == 0 && old(dom(p1)) == 2, old(mexp(p2)), old(mexp(p1))) && dom(p3) == ite(old(dom(p1)) == 2, old(dom(p2)), old(dom(p1)))
 
 //@ afunc Ring.MulScalar
 //@   trusted the ring-element reading of the row-level contract func Ring.MulScalar (every coefficient multiplied by the scalar)
@@ -731,12 +731,14 @@ package ring
 //@   ensures val(p2) == old(val(p1)) * scalar && mexp(p2) == old(mexp(p1)) && dom(p2) == old(dom(p1))
 
 //@ afunc Ring.DivRoundByLastModulusNTT
-//@   trusted opaque at the abstract level (a rounded division by the last modulus is not a ring operation; coefficient-level contract: property C02): writes the output and the buffer
+//@   trusted opaque at the abstract level (a rounded division by the last modulus is not a ring operation; coefficient-level contract: property C02): writes the output and the buffer; the result is NAMED as a function of the input (uf_divround)
 //@   assigns buff, p1
+//@   ensures val(p1) == uf_divround(old(val(p0)))
 
 //@ afunc Ring.DivRoundByLastModulusManyNTT
-//@   trusted opaque at the abstract level (rounded divisions by the last moduli are not ring operations; coefficient-level contract: property C02): writes the output and the buffer
+//@   trusted opaque at the abstract level (rounded divisions by the last moduli are not ring operations; coefficient-level contract: property C02): writes the output and the buffer; the result is NAMED as a function of the input (uf_divround; the number of divisions is the same for every component of one call site)
 //@   assigns buff, p1
+//@   ensures val(p1) == uf_divround(old(val(p0)))
 
 //@ afunc Ring.MulRNSScalarMontgomery
 //@   trusted the Montgomery product with an RNS scalar; the ring value and the Montgomery exponent of the scalar are NAMED by uninterpreted functions of its contents (uf_rnsval, uf_rnsmexp)
@@ -768,10 +770,10 @@ package ring
 //@   ensures val(p2) == old(val(p1[0])) + old(val(p1[1])) * scalar + old(val(p1[2])) * scalar * scalar
 
 //@ afunc Ring.Sub
-//@   trusted
-//@   requires ((isntt(p1) && isntt(p2)) || (iscoef(p1) && iscoef(p2))) && mexp(p1) == mexp(p2)
+//@   trusted ring-element view; an operand that is the zero element of no particular domain (a freshly allocated polynomial) has no Montgomery form of its own: the result takes the other operand's
+//@   requires (((isntt(p1) && isntt(p2)) || (iscoef(p1) && iscoef(p2))) && mexp(p1) == mexp(p2)) || (val(p1) == 0 && dom(p1) == 2) || (val(p2) == 0 && dom(p2) == 2)
 //@   assigns p3
-//@   ensures val(p3) == old(val(p1)) - old(val(p2)) && mexp(p3) == old(mexp(p1)) && dom(p3) == ite(old(dom(p1)) == 2, old(dom(p2)), old(dom(p1)))
+//@   ensures val(p3) == old(val(p1)) - old(val(p2)) && mexp(p3) == ite(old(val(p1)) == 0 && old(dom(p1)) == 2, old(mexp(p2)), old(mexp(p1))) && dom(p3) == ite(old(dom(p1)) == 2, old(dom(p2)), old(dom(p1)))
 
 //@ afunc Ring.Neg
 //@   trusted
